@@ -11,13 +11,14 @@ from __future__ import annotations
 import ast
 
 from .. import tables as T
-from ..cfg import walk_shallow
+from ..cfg import CFG, walk_shallow
 from ..core import AnalysisError, Report, norm
 from ..index import ClassInfo, FuncInfo
 
 MOD = "pennylane/devices/default_clifford.py"
 TABLE = "_OPERATIONS_MAP"
 R = "R-C70-table"
+RL = "R-C70-lookup"
 
 
 def _predicate_is_plain_membership(ix, m, table):
@@ -149,6 +150,191 @@ def _is_instance(ix, cls: ClassInfo, h: ClassInfo):
     return False
 
 
+# ---------------------------------------------------------------------------------------------
+# R-C70-lookup: every translating read of the table fails loudly for a name that is not a key
+
+_CATCHES_KEYERROR = {"KeyError", "LookupError", "Exception", "BaseException"}
+
+
+def _handler_catches_keyerror(h: ast.ExceptHandler):
+    if h.type is None:
+        return True
+    ts = h.type.elts if isinstance(h.type, ast.Tuple) else [h.type]
+    return any((t.id if isinstance(t, ast.Name) else getattr(t, "attr", None)) in _CATCHES_KEYERROR for t in ts)
+
+
+def _reaches_normal_exit(cfg: CFG, starts, keyerror_in_flight):
+    """Is the function's normal exit (return / fall off the end) reachable from ``starts``?
+
+    While ``keyerror_in_flight`` (we follow the exceptional edge of a failed subscript) an ``except_dispatch`` node
+    only continues into handlers that catch KeyError, or outwards when none does.  -> a witness path (lines) or None.
+    """
+    seen = {}
+    stack = [(s, keyerror_in_flight, None) for s in starts]
+    while stack:
+        n, flying, prev = stack.pop()
+        if (n, flying) in seen:
+            continue
+        seen[(n, flying)] = prev
+        if n == cfg.exit:
+            out, cur = [], (n, flying)
+            while cur is not None:
+                node = cfg.nodes[cur[0]]
+                if node.stmt is not None and node.line:
+                    out.append(node.line)
+                cur = seen[cur]
+            return out[::-1] or [0]
+        node = cfg.nodes[n]
+        succ = cfg.succ[n]
+        if node.kind == "except_dispatch" and flying:
+            catching = [(t, lab) for t, lab in succ if lab == "caught" and _handler_catches_keyerror(cfg.nodes[t].stmt)]
+            succ = catching if catching else [(t, lab) for t, lab in succ if lab == "uncaught"]
+        for t, lab in succ:
+            nf = flying
+            if cfg.nodes[t].kind == "except":
+                nf = False  # caught: from here on normal control flow of the handler
+            elif lab in ("raise",):
+                nf = False  # a new exception (not necessarily KeyError): follow every handler
+            stack.append((t, nf, (n, flying)))
+    return None
+
+
+def _owner_func(ix, m, node):
+    best = None
+    for f in ix.funcs_in(m):
+        if f.node.lineno <= node.lineno <= (f.node.end_lineno or 0) and any(x is node for x in ast.walk(f.node)):
+            if best is None or f.node.lineno >= best.node.lineno:
+                best = f
+    return best
+
+
+def _check_lookups(ix, rep, m, tab):
+    parents = {}
+    for p_ in ast.walk(m.tree):
+        for c in ast.iter_child_nodes(p_):
+            parents[c] = p_
+    reads = [n for n in ast.walk(m.tree) if isinstance(n, ast.Name) and n.id == tab.name and isinstance(n.ctx, ast.Load)
+             and T.same_table(T.resolve_table_expr(ix, m, n), tab)]
+    n_reads = n_translating = 0
+    cfgs = {}
+    for n in reads:
+        par = parents.get(n)
+        # `T.keys()` is the same key set as T
+        expr = n
+        if isinstance(par, ast.Attribute) and par.attr == "keys" and isinstance(parents.get(par), ast.Call):
+            expr = parents[par]
+            par = parents.get(expr)
+        if isinstance(par, ast.Subscript) and par.value is n and not isinstance(par.ctx, ast.Load):
+            continue  # module-level  T[k] = v  (part of the table, read by E5)
+        n_reads += 1
+        f = _owner_func(ix, m, n)
+        qn = f.qualname if f else "<module>"
+        where = f"{m.relpath}:{qn} {norm(par)[:70] if par is not None else tab.name}"
+        # ---- uses that define the accepted set, not a translation ---------------------------
+        up, kwarg = par, None
+        while up is not None and not isinstance(up, ast.stmt):
+            if isinstance(up, ast.keyword):
+                kwarg = up.arg
+            up = parents.get(up)
+        if kwarg == "target_gates":
+            rep.exempt(RL, where, "key set handed to the decomposition as target_gates")
+            continue
+        is_membership = isinstance(par, ast.Compare) and len(par.ops) == 1 and isinstance(par.ops[0], (ast.In, ast.NotIn)) and par.comparators[0] is expr
+        if is_membership and f is not None and isinstance(up, ast.Return):
+            body = [s_ for s_ in f.node.body if not (isinstance(s_, ast.Expr) and isinstance(s_.value, ast.Constant))]
+            if len(body) == 1 and body[0] is up:
+                rep.exempt(RL, where, "acceptance predicate (its value is the answer; nothing is translated)")
+                continue
+        if f is None:
+            rep.unknown(RL, where, "read at module level")
+            continue
+        n_translating += 1
+        rep.analysed(m.relpath, qn)
+        if f not in cfgs:
+            def may_raise(st, _t=tab):
+                return any(isinstance(x, ast.Subscript) and isinstance(x.ctx, ast.Load) and isinstance(x.value, ast.Name) and x.value.id == _t.name
+                           for x in walk_shallow(st))
+            cfgs[f] = CFG(f.node, may_raise=may_raise)
+        cfg = cfgs[f]
+
+        def node_of(stmt_pred):
+            return [nd for nd in cfg.nodes.values() if nd.stmt is not None and stmt_pred(nd)]
+
+        def holder(x):
+            """CFG node whose own (shallow) statement/test contains AST node x"""
+            for nd in cfg.nodes.values():
+                if nd.stmt is None or nd.kind in ("except_dispatch", "finally", "join", "try", "def"):
+                    continue
+                scope = nd.stmt.test if nd.kind == "test" else (nd.stmt.iter if nd.kind == "for" else nd.stmt)
+                if isinstance(nd.stmt, (ast.If, ast.While)) and nd.kind != "test":
+                    continue
+                if isinstance(scope, ast.ExceptHandler):
+                    continue
+                if any(y is x for y in walk_shallow(scope)):
+                    return nd
+            return None
+
+        if isinstance(par, ast.Subscript) and par.value is n:
+            nd = holder(par)
+            if nd is None:
+                rep.unknown(RL, where, "subscript not located in the function's control-flow graph (nested scope)")
+                continue
+            # is the subscript dominated by a membership guard?  then a missing key cannot reach it
+            exc = [t for t, lab in cfg.succ[nd.id] if lab == "exc"]
+            path = _reaches_normal_exit(cfg, exc, True) if exc else None
+            if path is None:
+                rep.proved(RL, where, f"`{norm(par)}`: a missing key raises KeyError which propagates or is converted into a raise on every path")
+            else:
+                rep.refuted(RL, m.relpath, qn, norm(parents.get(par) if isinstance(parents.get(par), ast.stmt) else par),
+                            f"the KeyError of `{norm(par)}` for a name outside {tab.name} is swallowed: the function still returns normally "
+                            f"(path L{' -> L'.join(map(str, path))}), so an operator the table does not know is translated to nothing instead of being rejected",
+                            line=par.lineno)
+        elif isinstance(par, ast.Attribute) and par.value is n and par.attr in ("get", "pop", "setdefault") and isinstance(parents.get(par), ast.Call):
+            call = parents[par]
+            st = call
+            while st is not None and not isinstance(st, ast.stmt):
+                st = parents.get(st)
+            tgt = st.targets[0].id if isinstance(st, ast.Assign) and len(st.targets) == 1 and isinstance(st.targets[0], ast.Name) else None
+            guarded = False
+            if tgt is not None:
+                for x in walk_shallow(f.node):
+                    if isinstance(x, ast.If) and any(isinstance(y, ast.Name) and y.id == tgt for y in ast.walk(x.test)) \
+                            and any(isinstance(y, ast.Raise) for b in (x.body, x.orelse) for s_ in b for y in ast.walk(s_)):
+                        guarded = True
+            if guarded:
+                rep.unknown(RL, where, f"`{norm(call)}` followed by a test of `{tgt}` that raises: not decided")
+            else:
+                rep.refuted(RL, m.relpath, qn, norm(st) if st is not None else norm(call),
+                            f"`{norm(call)}` yields {'the default' if len(call.args) > 1 or call.keywords else 'None'} for a name outside {tab.name} and nothing raises: "
+                            f"an operator the device does not know (e.g. T / RX / Toffoli on a check_clifford=False device) gets no Stim instruction and is silently "
+                            f"skipped by the gate loop instead of being rejected", line=call.lineno)
+        elif is_membership:
+            ifnode = parents.get(par)
+            negated = False
+            if isinstance(ifnode, ast.UnaryOp) and isinstance(ifnode.op, ast.Not):
+                negated, ifnode = True, parents.get(ifnode)
+            if not isinstance(ifnode, ast.If) or (ifnode.test is not par and not (negated and isinstance(ifnode.test, ast.UnaryOp) and ifnode.test.operand is par)):
+                rep.unknown(RL, where, "membership test is not the whole condition of an if statement")
+                continue
+            missing_label = "true" if isinstance(par.ops[0], ast.NotIn) != negated else "false"
+            tn = next((nd for nd in cfg.nodes.values() if nd.kind == "test" and nd.stmt is ifnode), None)
+            if tn is None:
+                rep.unknown(RL, where, "if statement not located in the control-flow graph")
+                continue
+            starts = [t for t, lab in cfg.succ[tn.id] if lab == missing_label]
+            path = _reaches_normal_exit(cfg, starts, False)
+            if path is None:
+                rep.proved(RL, where, "the not-a-key branch raises on every path")
+            else:
+                rep.refuted(RL, m.relpath, qn, f"if {norm(ifnode.test)}",
+                            f"when the name is not a key of {tab.name} the function carries on (path L{' -> L'.join(map(str, path))}) instead of raising: "
+                            f"the operator is silently left out of the simulation", line=ifnode.lineno)
+        else:
+            rep.unknown(RL, where, "use of the table not modelled")
+    rep.floor(f"reads of {tab.name} in the module", n_reads, 4)
+    rep.floor(f"translating reads of {tab.name} decided", n_translating, 2)
+
+
 def check(ctx):
     ix = ctx.index
     rep = Report("C70", "the table translating PennyLane operators to Stim instructions — which is also the device's acceptance "
@@ -159,6 +345,10 @@ def check(ctx):
              "channel or falls, in the branch of DefaultClifford.simulate's gate loop that runs when the Stim instruction is None, under an "
              "`if isinstance(op, C):` whose body uses the operator or raises (C a static or __subclasshook__-declared base of the key's class; "
              "`pass`/`continue` handle nothing), given that operation_stopping_condition accepts the name at any position")
+    rep.rule(RL, "every read of _OPERATIONS_MAP that translates an operator for simulation fails loudly for a name that is not a key: a subscript whose "
+             "KeyError propagates or is converted into a raise on every path (CFG), or a membership test whose not-a-key branch raises on every path; "
+             "`.get(name[, default])` without a raising test of the result, a swallowed KeyError or a fall-through guard is refuted; the acceptance "
+             "predicate and target_gates uses are exempt")
     rep.assume("Stim gate names and aliases as transcribed in pennyverif/tables.py (doc/gates.md, stim 1.13-1.16); a value that is not a Stim gate "
                "name is refuted only when the reference knows the key (and therefore the right name)")
     rep.assume("`Adjoint(X)` is the name of the adjoint of X; operation_stopping_condition is the predicate handed to the decompose transform")
@@ -292,6 +482,7 @@ def check(ctx):
                     rep.unknown(R, where, f"{e.key} is {'a' if is_channel else 'not a'} Channel subclass while Stim `{canon}` is a {ref[1]} instruction")
                     continue
             rep.proved(R, where, f"{e.key} = Stim {canon}" + (f" (alias {e.value})" if canon != e.value.upper() else "") + f" [{ref[1]}]")
+    _check_lookups(ix, rep, m, tab)
     rep.floor("literal entries classified (with / without Stim instruction)", n_stim + n_none, 24)
     rep.extra["entries"] = {"with_stim_instruction": n_stim, "without": n_none}
     return rep
